@@ -273,8 +273,130 @@ class Collide(SubCheck):
     unit_test = CmdSeq.unit_test
 
 
+class Magnitudes(CmdSeq):
+    """the command sequences again with every coordinate scaled by 1e-9 and by 1e9 (exponent spellings): absolute
+    epsilons or decimal roundings in the coordinate arithmetic show at the small end, lost digits at the large end"""
+    name = "magnitudes"
+
+    def __init__(self, svg, tier, seed):
+        self.svg = svg
+        self.space = pc.spec_space(3 if tier == "thorough" else 2, 1)
+        self.exps = ["e-9", "e9", "e-7"]
+        self.bounds = dict(depth=3 if tier == "thorough" else 2, budget=1, exponents=self.exps)
+        self.builders = []
+        for e in self.exps:
+            b = pc.Builder(seed)
+            # long mantissas: the coordinates do not sit on any decimal grid near their own magnitude
+            b.pool = [(v if "." in v else v + ".") + "123457" + e for v in b.pool]
+            self.builders.append(b)
+
+    def size(self):
+        return len(self.space) * len(self.exps)
+
+    def case(self, i):
+        spec = self.space[i // len(self.exps)]
+        pieces = self.builders[i % len(self.exps)].build(spec)
+        return {"spec": ["%s%d" % (l, d) for l, d in spec], "d": " ".join(pieces)}
+
+    def run(self, case):
+        out = Outcome()
+        d = case["d"]
+        ref, p = run_string(self.svg, d, out, dict(d=d))
+        if not ref.ok:
+            out.fail("HARNESS: generated string rejected by the reference: %r at %r" % (d, ref.error_pos), harness=True)
+            return out
+        out.nontrivial.append(d)
+        if p is not None:
+            out.outcome = tuple(type(s).__name__[0] for s in p)
+        return out
+
+
+class BuilderApi(SubCheck):
+    """the programmatic builder the lexer drives (Path.move / line / horizontal / vertical / quad / smooth_quad / cubic /
+    smooth_cubic / arc / closed), called the way a user may call it: ALL argument groups of a command in ONE call.  The
+    points are the reference's absolute points (the builder takes absolute points; only horizontal / vertical
+    interpret relative=True themselves); the result must be the reference's segment list."""
+    name = "builder"
+
+    def __init__(self, svg, tier, seed):
+        self.svg = svg
+        self.space = pc.spec_space(3 if tier == "thorough" else 2, 1)
+        self.builder = pc.Builder(seed)
+        self.bounds = dict(depth=3 if tier == "thorough" else 2, budget=1)
+
+    def size(self):
+        return len(self.space)
+
+    def case(self, i):
+        spec = self.space[i]
+        return {"spec": ["%s%d" % (l, d) for l, d in spec], "d": " ".join(self.builder.build(spec))}
+
+    def run(self, case):
+        out = Outcome()
+        svg = self.svg
+        d = case["d"]
+        ref = pathspec.parse(d)
+        if not ref.ok:
+            out.fail("HARNESS: generated string rejected by the reference: %r" % d, harness=True)
+            return out
+        segs = ref.segments
+        if any(getattr(s, "closing", False) for s in segs):
+            return out      # segment-completing z has no builder spelling of its own
+        p = svg.Path()
+        i = 0
+        multi = False
+        try:
+            while i < len(segs):
+                cmd = segs[i].cmd
+                j = i + 1
+                while j < len(segs) and segs[j].cmd == cmd and segs[j].group == segs[j - 1].group + 1:
+                    j += 1
+                run_ = segs[i:j]
+                multi = multi or len(run_) > 1
+                rel = cmd.islower()
+                C = cmd.upper()
+                if C == "M":
+                    p.move(*[s.end for s in run_], relative=rel)
+                elif C == "Z":
+                    p.closed(relative=rel)
+                elif C == "L":
+                    p.line(*[s.end for s in run_], relative=rel)
+                elif C == "H":
+                    p.horizontal(*[(s.end[0] - s.start[0]) if rel else s.end[0] for s in run_], relative=rel)
+                elif C == "V":
+                    p.vertical(*[(s.end[1] - s.start[1]) if rel else s.end[1] for s in run_], relative=rel)
+                elif C == "T":
+                    p.smooth_quad(*[s.end for s in run_], relative=rel)
+                elif C == "Q":
+                    p.quad(*[q for s in run_ for q in (s.c1, s.end)], relative=rel)
+                elif C == "S":
+                    p.smooth_cubic(*[q for s in run_ for q in (s.c2, s.end)], relative=rel)
+                elif C == "C":
+                    p.cubic(*[q for s in run_ for q in (s.c1, s.c2, s.end)], relative=rel)
+                elif C == "A":
+                    args = []
+                    for s in run_:
+                        rx, ry, rot, fa, fs = s.arc
+                        args += [float(rx), float(ry), float(rot), int(fa), int(fs), s.end]
+                    p.arc(*args, relative=rel)
+                i = j
+        except Exception as e:  # noqa
+            out.fail("builder calls for %r raised %s" % (d, type(e).__name__), None, repr(e), kind="exception", d=d)
+            return out
+        out.traces += 1
+        if multi:
+            out.nontrivial.append(d)
+        out.outcome = tuple(type(s).__name__[0] for s in p)
+        # relative h/v values are differences of doubles: compare to 1e-11
+        out.transitions += pc.compare_path(list(p), segs, out, "builder calls for %r" % d, tags=dict(d=d, entry="builder"), rel=1e-11)
+        return out
+
+    def unit_test(self, case):
+        return None
+
+
 def build(tier, seed, svg):
-    return [CmdSeq(svg, tier, seed), Collide(svg, tier), Tokens(svg, tier)]
+    return [CmdSeq(svg, tier, seed), Collide(svg, tier), Magnitudes(svg, tier, seed), BuilderApi(svg, tier, seed), Tokens(svg, tier)]
 
 
 def m_smooth_other_degree(d):
